@@ -74,6 +74,7 @@ type Exec struct {
 	usedSpecs map[string]bool
 	replay    *ReplayInfo
 	curCall   *ssa.CallCommon
+	oncallSeen map[string]bool
 	chanElem  map[string]types.Type // element type per "lastsent:key" / "lastrecv:key"
 	elemInfo   map[string]elemRef   // element address -> (backing array, index)
 	appendInfo map[string]*appendRec // backing array allocated by append -> its sources
@@ -302,6 +303,12 @@ func (x *Exec) verify() (err error) {
 	fr.retK = nil
 	x.analyzeLoops(fn)
 	x.enterBlock(st, fn.Blocks[0], nil)
+	// vacuity guard: an oncall clause whose label matches no call on any explored path checks nothing
+	for label := range x.spec.OnCall {
+		if !x.oncallSeen[label] {
+			return specErr{fmt.Sprintf("contract of %s: oncall label %q matches no call site (misspelt, or the call was removed): the clause would check nothing", x.fname, label)}
+		}
+	}
 	return nil
 }
 
